@@ -76,6 +76,7 @@ class IndexableArray(RaggedBase):
             return self._get_multiple_rows(np.asanyarray(index), do_split)
         elif isinstance(index, IndexableArray):
             if np.issubdtype(index, bool):
+                self.ravel()  # the mask addresses the cells of this array, not of the buffer a pending selection still points into
                 return np.flatnonzero(index.ravel()), None
         else:
             return NotImplemented
